@@ -417,3 +417,47 @@ Section ParsePlain.
       cbn [negb join_composite rbind t_txt]; rewrite Hq; cbn [rbind finish]; reflexivity ).
   Qed.
 End ParsePlain.
+
+(* ------------------------------------------------------------------ the back-quoted style, value without a back quote *)
+Lemma split96_nobq : forall v, contains_byte 96 v = false -> split96 v = [v].
+Proof.
+  induction v as [|c v IH]; intros H; [reflexivity|].
+  rewrite contains_cons in H. apply orb_false_iff in H. destruct H as [Hc Hv].
+  cbn [split96]. rewrite Hc, (IH Hv). reflexivity.
+Qed.
+
+Lemma render_raw_nobq : forall v, contains_byte 96 v = false -> render_raw v = 96 :: v ++ [96].
+Proof. intros v H. unfold render_raw. rewrite (split96_nobq v H). reflexivity. Qed.
+
+Lemma index_byte_nobq : forall b v rest, contains_byte b v = false -> index_byte b (v ++ b :: rest) = Some (length v).
+Proof.
+  intros b. induction v as [|c v IH]; intros rest H.
+  - cbn. rewrite N.eqb_refl. reflexivity.
+  - rewrite contains_cons in H. apply orb_false_iff in H. destruct H as [Hc Hv].
+    cbn [app index_byte length]. rewrite Hc, (IH rest Hv). reflexivity.
+Qed.
+
+Section NextRaw.
+  Variables is_space is_letter is_digit : N -> bool.
+  Hypothesis H_space : is_space 96 = false.
+  Hypothesis H_tok : is_token_rune is_letter is_digit 96 = false.
+
+  (* Next standing at a raw literal: ANY bytes without a back quote come back untouched (no escape processing, an
+     asterisk stays an asterisk, invalid UTF-8 stays as it is) *)
+  Lemma next_render_raw : forall v rest sp f, contains_byte 96 v = false ->
+    next is_space is_letter is_digit (S f) (render_raw v ++ rest) sp = ROk (mkTok v true true sp, rest).
+  Proof.
+    intros v rest sp f Hv. rewrite (render_raw_nobq v Hv). cbn [app]. rewrite <- app_assoc. cbn [app].
+    cbn [next]. rewrite (dec1_ascii 96) by lia.
+    change (96 =? RuneError) with false. cbv iota.
+    cbn [skip_spaces]. rewrite (dec1_ascii 96) by lia. rewrite H_space. cbn [rbind].
+    rewrite (dec1_ascii 96) by lia. change (96 =? 35) with false. cbv iota.
+    cbn [scan_token]. rewrite (dec1_ascii 96) by lia. rewrite H_tok. cbn [rbind nonempty].
+    change (96 =? 42) with false. change ((96 =? 39) || (96 =? 34)) with false. change (96 =? 96) with true. cbv iota.
+    unfold quoted_prefix_raw.
+    replace (Nat.ltb (length (96 :: v ++ 96 :: rest)) 2) with false
+      by (symmetry; apply Nat.ltb_ge; cbn [length]; rewrite app_length; cbn [length]; lia).
+    rewrite (index_byte_nobq 96 v rest Hv).
+    rewrite (firstn_app_len v), (skipn_app_len1 v). reflexivity.
+  Qed.
+End NextRaw.
